@@ -6,7 +6,7 @@
    concrete histories on which the faithful model violates the property text (findings that are still
    open); each is replayed on the implementation by the harness (corpus/C07).  The `_old_refuted` Examples
    are witnesses of the behaviour BEFORE the fix commits, over the `_old` definitions (history only). *)
-Require Import Base DictIO DictIOProofs C07Ident C07IdentProofs C07Power C07PowerProofs.
+Require Import Base DictIO DictIOProofs C07Ident C07IdentProofs C07Power C07PowerProofs C07Collide C07CollideProofs.
 From Coq Require Import Permutation.
 
 (* save then load: the dictionary read back is the dictionary written (as a map id -> spelling), for
@@ -647,3 +647,73 @@ Example C07_power_example :
   pcrash_obs lossy_prefix s UserP (Some (Clean (serialize pw_new))) /\
   pcrash_obs lossy_prefix s UserP (Some (Clean (serialize [w_alpha; w_beta]))).
 Proof. exact (conj lossy_prefix_safe (conj lossy_prefix_loses power_example)). Qed.
+
+(* ================================================================================================== *)
+(*  the open collision findings as exact classes (Model/C07Collide.v)                                   *)
+(* ================================================================================================== *)
+
+(* F20, exactly: two paths get the same dictionary file (or both none) iff their components, cut at every '%', give the
+   same list of pieces — e.g. /a/b and /a%b (pieces a, b), /a%/b and /a/%b, /x%y%z and /x/y%z *)
+Theorem C07_f20_class : forall p q : list N,
+  file_dict_name (FileUrl p) = file_dict_name (FileUrl q) <-> pct_split (components p) = pct_split (components q).
+Proof. exact f20_class. Qed.
+Check C07_f20_class : forall p q : list N,
+  file_dict_name (FileUrl p) = file_dict_name (FileUrl q) <-> pct_split (components p) = pct_split (components q).
+Print Assumptions C07_f20_class.
+
+(* ... decided by x_f20_collide, the classifier the harness applies to every pair of paths that share a dictionary file
+   (a collision outside this class would be reported as a new failure; by this theorem there is none in the model) *)
+Theorem C07_f20_class_dec : forall p q : list N,
+  x_f20_collide p q = true <-> file_dict_name (FileUrl p) = file_dict_name (FileUrl q).
+Proof. exact f20_class_dec. Qed.
+Check C07_f20_class_dec : forall p q : list N,
+  x_f20_collide p q = true <-> file_dict_name (FileUrl p) = file_dict_name (FileUrl q).
+Print Assumptions C07_f20_class_dec.
+
+(* F15 (reload side), exactly: after the adds pre ++ w :: post to one dictionary file (line-safe words, any start), w is among
+   the words the file reloads to iff the LAST word of post with w's case-folded id, if there is one, is w itself *)
+Theorem C07_f15_reload_class : forall (is_lower : N -> bool) (lower : N -> list N) (iter_order : list word -> list word),
+  (forall l : list word, Permutation (iter_order l) l) ->
+  forall (p : path) (s : fsys) (pre : list word) (w : word) (post : list word),
+  fs_ok is_lower lower s -> is_tmp p = false -> Forall line_safe (pre ++ w :: post) ->
+  In w (words_of (dict_at is_lower lower p (adds_to is_lower lower iter_order p (pre ++ w :: post) s))) <->
+  (forall x : word, last_same_id is_lower lower (word_id is_lower lower w) post = Some x -> x = w).
+Proof. exact f15_reload_class. Qed.
+Check C07_f15_reload_class : forall (is_lower : N -> bool) (lower : N -> list N) (iter_order : list word -> list word),
+  (forall l : list word, Permutation (iter_order l) l) ->
+  forall (p : path) (s : fsys) (pre : list word) (w : word) (post : list word),
+  fs_ok is_lower lower s -> is_tmp p = false -> Forall line_safe (pre ++ w :: post) ->
+  In w (words_of (dict_at is_lower lower p (adds_to is_lower lower iter_order p (pre ++ w :: post) s))) <->
+  (forall x : word, last_same_id is_lower lower (word_id is_lower lower w) post = Some x -> x = w).
+Print Assumptions C07_f15_reload_class.
+
+(* ... and that last word is the spelling the file holds instead *)
+Theorem C07_f15_reload_winner : forall (is_lower : N -> bool) (lower : N -> list N) (iter_order : list word -> list word),
+  (forall l : list word, Permutation (iter_order l) l) ->
+  forall (p : path) (s : fsys) (pre : list word) (w : word) (post : list word) (x : word),
+  fs_ok is_lower lower s -> is_tmp p = false -> Forall line_safe (pre ++ w :: post) ->
+  last_same_id is_lower lower (word_id is_lower lower w) post = Some x ->
+  In x (words_of (dict_at is_lower lower p (adds_to is_lower lower iter_order p (pre ++ w :: post) s))) /\
+  word_id is_lower lower x = word_id is_lower lower w /\ In x post.
+Proof. exact f15_reload_winner. Qed.
+Check C07_f15_reload_winner : forall (is_lower : N -> bool) (lower : N -> list N) (iter_order : list word -> list word),
+  (forall l : list word, Permutation (iter_order l) l) ->
+  forall (p : path) (s : fsys) (pre : list word) (w : word) (post : list word) (x : word),
+  fs_ok is_lower lower s -> is_tmp p = false -> Forall line_safe (pre ++ w :: post) ->
+  last_same_id is_lower lower (word_id is_lower lower w) post = Some x ->
+  In x (words_of (dict_at is_lower lower p (adds_to is_lower lower iter_order p (pre ++ w :: post) s))) /\
+  word_id is_lower lower x = word_id is_lower lower w /\ In x post.
+Print Assumptions C07_f15_reload_winner.
+Example C07_f20_class_example :
+  x_f20_collide p_a_b p_a_pct_b = true /\ x_f20_collide p_a_b [47; 97; 47; 99]%N = false /\
+  x_f20_collide [47; 97; 37; 47; 98]%N [47; 97; 47; 37; 98]%N = true /\            (* /a%/b  vs  /a/%b *)
+  x_f20_collide [47; 97; 47; 47; 98; 47]%N p_a_b = true /\                            (* /a//b/ is /a/b: the same file *)
+  pct_split (components p_a_pct_b) = [[97]; [98]]%N.
+Proof. vm_compute. repeat split. Qed.
+Example C07_f15_reload_example :
+  last_same_id a_is_lower a_lower (word_id a_is_lower a_lower w_zorgle) [w_alpha; w_Zorgle; w_beta] = Some w_Zorgle /\
+  last_same_id a_is_lower a_lower (word_id a_is_lower a_lower w_zorgle) [w_Zorgle; w_zorgle] = Some w_zorgle /\
+  last_same_id a_is_lower a_lower (word_id a_is_lower a_lower w_zorgle) [w_alpha] = None /\
+  option_map words_of (load_dict a_is_lower a_lower UserP
+     (adds_to a_is_lower a_lower id_order UserP ([] ++ w_zorgle :: [w_alpha; w_Zorgle; w_beta]) fs_empty)) = Some [w_Zorgle; w_alpha; w_beta].
+Proof. vm_compute. repeat split. Qed.
